@@ -1,11 +1,23 @@
-"""C16 no undefined behaviour (kernel).  Layer (a): the functions under contract for the other properties, re-verified
-with type-invariant-only preconditions (every bit pattern a C++ caller can pass); layer (b): dedicated units."""
-import props.c07 as c07
-UNITS = {k: c07.UNITS[k] for k in ('getDataFrameIndex', 'getSetIndex', 'getIndex', 'getSampledIndex')}
+"""C16 no undefined behaviour (kernel).  Layer (a): functions under contract for the other properties, re-verified with
+type-invariant-only preconditions (every bit pattern a C++ caller can pass); layer (b): dedicated units."""
+import props.c07 as c07, props.c10 as c10
+from props.nd_units import ND_UNITS, ND_JOBS, ND_TRUST
+UNITS = {k: c07.UNITS[k] for k in ('toIndex', 'getDataFrameIndex', 'getSetIndex', 'getIndex', 'getSampledIndex')}
+UNITS.update(ND_UNITS)
+UNITS.update({k: c10.UNITS[k] for k in ('FormatVersion_index', 'FormatVersion_lt')})
 JOBS = [
+    dict(name='toIndex', bodies=['toIndex'], enforce=['toIndex'], expect_kinds=['postcondition'], timeout=300),
     dict(name='getDataFrameIndex[all doubles]', bodies=['getDataFrameIndex'], enforce=['getDataFrameIndex'], defines=['C16_SAFETY'], covers=['COVER-has', 'COVER-none'], timeout=600),
     dict(name='getSetIndex[all doubles]', bodies=['getSetIndex'], enforce=['getSetIndex'], defines=['C16_SAFETY'], covers=['COVER-has', 'COVER-none'], timeout=600),
     dict(name='getIndex[any ticks]', bodies=['getIndex'], enforce=['getIndex'], replace=['std_lower_bound_idx'], timeout=600),
+    dict(name='getSampledIndex[all doubles,s=1,o=0]', bodies=['getSampledIndex'], enforce=['getSampledIndex'], defines=['S_INT=1.0', 'S_OFF=0.0', 'SAX_SAFETY_ONLY'], timeout=900),
+    dict(name='getSampledIndex[all doubles,s=0.1,o=-0.7]', bodies=['getSampledIndex'], enforce=['getSampledIndex'], defines=['S_INT=0.1', 'S_OFF=(-0.7)', 'SAX_SAFETY_ONLY'], timeout=900, tiers=('thorough',)),
 ]
-SPEC = dict(contracts=['c07_leaf.h'], stubs=['std_algo.h'], units=UNITS, jobs=JOBS,
-            trusted_base=c07.SPEC['trusted_base'], assumptions=['type invariants only: enum parameters hold an enumerator, vectors have at most 2^20 elements'])
+# NDSize: every size_t index, every rank the type invariant allows, aliasing operands
+JOBS += [j for j in ND_JOBS if 'rank=' not in j['name']]
+JOBS += [j for j in c10.JOBS if j['name'] in ('FormatVersion_index', 'FormatVersion_lt')]
+SPEC = dict(contracts=['c07_leaf.h', 'nd.h', 'c10_version.h'], stubs=['std_algo.h'], units=UNITS, jobs=JOBS,
+            trusted_base=c07.SPEC['trusted_base'] + ND_TRUST,
+            assumptions=['type invariants only: enum parameters hold an enumerator, vectors have at most 2^20 elements, NDSize rank <= 32 with dims of exactly rank elements',
+                         'sampled axis: interval and offset are grid constants (symbolic division does not terminate); the position is any double',
+                         'NOT covered: sequences of API calls, handle lifetimes, libhdf5 internals, operator new failure'])
